@@ -9,7 +9,7 @@
 
    Part B.  The slant-depth configuration is [ep (endpoint index), zen (index on a lattice of zenith angles of the
    chord direction, larger = dipping deeper), turns (quarter turns about the vertical applied to endpoint and
-   direction together), k (length of the direction vector)].  ScaleDir and Turn leave the slant depth unchanged,
+   direction together), k (length of the direction vector)].  ScaleDir, Turn and ToAxis (the whole configuration rotated about the Earth's centre) leave the slant depth unchanged,
    Dip must not decrease it; `dips` counts the dips since the base, so the relation to the base value is
    "equal" while dips = 0 and "at least" afterwards.  Above (endpoints above the surface with a chord that does
    not point below the horizon) must give exactly zero.                                                        *)
@@ -20,33 +20,37 @@ CONSTANTS Radii,          \* upper radii of the shells (metres, increasing); the
           Forms,          \* input forms
           Endpoints, Zeniths, HorizonIndex, AboveEndpoints, Factors, Model
 
-VARIABLES ep, zen, zen0, turns, k, dips, last
-vars == <<ep, zen, zen0, turns, k, dips, last>>
+VARIABLES ep, zen, zen0, turns, k, dips, axis, last
+vars == <<ep, zen, zen0, turns, k, dips, axis, last>>
 
 NSh == Len(Radii)
 Lower(i) == IF i = 1 THEN 0 ELSE Radii[i - 1]
 Shell(r) == IF r < 0 \/ r >= Radii[NSh] THEN 0
             ELSE CHOOSE i \in 1..NSh : Lower(i) <= r /\ r < Radii[i]
 
-Init == /\ ep \in Endpoints /\ zen \in Zeniths /\ zen0 = zen /\ turns = 0 /\ k = 1 /\ dips = 0
+Init == /\ ep \in Endpoints /\ zen \in Zeniths /\ zen0 = zen /\ turns = 0 /\ k = 1 /\ dips = 0 /\ axis = FALSE
         /\ last = [op |-> "Init", zero |-> (ep \in AboveEndpoints /\ zen <= HorizonIndex)]
 
 Probe(rs, form) == /\ last' = [op |-> "Probe", rs |-> rs, form |-> form, shells |-> [i \in 1..Len(rs) |-> Shell(rs[i])]]
-                   /\ UNCHANGED <<ep, zen, zen0, turns, k, dips>>
+                   /\ UNCHANGED <<ep, zen, zen0, turns, k, dips, axis>>
 Rec(op, z) == [op |-> op, zero |-> (ep \in AboveEndpoints /\ z <= HorizonIndex), rel |-> IF op = "Dip" THEN "ge" ELSE "eq"]
 ScaleDir(f) == /\ k * f <= 1000
                /\ k' = k * f /\ last' = Rec("ScaleDir", zen)
-               /\ UNCHANGED <<ep, zen, zen0, turns, dips>>
+               /\ UNCHANGED <<ep, zen, zen0, turns, dips, axis>>
 Turn == /\ turns' = (turns + 1) % 4 /\ last' = Rec("Turn", zen)
-        /\ UNCHANGED <<ep, zen, zen0, k, dips>>
+        /\ UNCHANGED <<ep, zen, zen0, k, dips, axis>>
 Dip == /\ zen + 1 \in Zeniths
        /\ zen' = zen + 1 /\ dips' = dips + 1 /\ last' = Rec("Dip", zen + 1)
-       /\ UNCHANGED <<ep, zen0, turns, k>>
+       /\ UNCHANGED <<ep, zen0, turns, k, axis>>
+(* the same chord seen after rotating the Earth about its centre so that the endpoint lies on the vertical axis *)
+ToAxis == /\ axis' = ~axis /\ last' = Rec("ToAxis", zen)
+          /\ UNCHANGED <<ep, zen, zen0, turns, k, dips>>
 
 Next == \/ \E rs \in ProbeSets, f \in Forms : Probe(rs, f)
         \/ \E f \in Factors : ScaleDir(f)
         \/ Turn
         \/ Dip
+        \/ ToAxis
 Spec == Init /\ [][Next]_vars
 
 ShellsPartition == \A r \in {Radii[i] - 1 : i \in 1..NSh} \cup {Radii[i] : i \in 1..NSh} \cup {0} :
